@@ -48,6 +48,7 @@ def run(chk):
     from . import c11
 
     c11.saver_guards(chk, repo, rule="C02.R5", only=("fuzzy",))
+    r6_config_ownership(chk, repo)
 
 
 # ------------------------------------------------------------------------------------ R1
@@ -393,8 +394,56 @@ def r4_exact_unless_fuzzy(chk, repo):
 def literals_of(facts):
     return facts
 
+# ------------------------------------------------------------------------------------ R6
+def r6_config_ownership(chk, repo):
+    from ..pattern import pmatch
+    chk.describe("C02.R6", "every context owns its configuration: combining configs in update mode returns a fresh dict, set_config rebinds self.config instead of mutating it, and a derived context takes the parent's options first and the given ones on top (nothing re-applies the parent's afterwards)")
+    R = "C02.R6"
+    cc = repo.func("combine_configs", "strax/config.py")
+    cfg = cfg_of(cc)
+    OLD, NEW = cc.params[0], cc.params[1]
+    rets = [n for n in cfg.stmt_nodes() if isinstance(n.stmt, ast.Return) and n.stmt.value is not None]
+    upd = [n for n in rets if (f"mode == 'update'", True) in cfg.guard_facts(n)]
+    chk.check(bool(upd), R, cc, None, "combine_configs has no update branch", site_text="combine_configs: mode == 'update' branch")
+    d = Defs(cc.node)
+    for n in upd:
+        v = n.stmt.value
+        fresh = False
+        if isinstance(v, ast.Name) and v.id not in (OLD, NEW):
+            dv = d.single(v.id)
+            fresh = dv is not None and isinstance(dv, ast.Call) and norm(dv) in (f"{OLD}.copy()", f"dict({OLD})", f"copy({OLD})", f"deepcopy({OLD})")
+        elif isinstance(v, ast.Dict) or (isinstance(v, ast.Call) and call_name(v) == "dict"):
+            fresh = True
+        chk.check(fresh, R, cc, n.stmt, f"`{norm(n.stmt)}` in update mode hands back one of its arguments instead of a fresh dict: two contexts then share one configuration object, and set_config on one changes the lineage and keys of the other", site_text="combine_configs: update mode returns a copy", site={"function": cc.qualname, "return": norm(v)[:40]})
+    sc = repo.func("Context.set_config", CONTEXT)
+    mut = [st for st in walk_body(sc.node) if (isinstance(st, ast.Expr) and isinstance(st.value, ast.Call) and isinstance(st.value.func, ast.Attribute) and norm(st.value.func.value) == "self.config" and st.value.func.attr in ("update", "setdefault", "pop", "clear", "__setitem__")) or (isinstance(st, (ast.Assign, ast.AugAssign)) and any(isinstance(t, ast.Subscript) and norm(t.value) == "self.config" for t in (st.targets if isinstance(st, ast.Assign) else [st.target])))]
+    chk.check(not mut, R, sc, mut[0] if mut else None, "set_config mutates self.config in place: a configuration object that is shared (e.g. with the context this one was derived from) changes under the other context", site_text="Context.set_config: self.config is rebound, never mutated")
+    reb = [st for st in walk_body(sc.node) if isinstance(st, ast.Assign) and norm(st.targets[0]) == "self.config" and isinstance(st.value, ast.Call) and (call_name(st.value) or "").endswith("combine_configs")]
+    chk.check(len(reb) == 1, R, sc, None, "set_config does not rebuild the configuration with combine_configs", site_text="Context.set_config: self.config = combine_configs(...)")
+    nc = repo.func("Context.new_context", CONTEXT)
+    ncfg = cfg_of(nc)
+    cons = [c for c in calls_in(nc.node) if call_name(c) == "Context"]
+    chk.check(len(cons) == 1, R, nc, None, "new_context does not build exactly one Context", site_text="new_context: Context(...)")
+    if len(cons) == 1:
+        CFGP = "config"
+        merges = [st for st in walk_body(nc.node) if isinstance(st, ast.Assign) and norm(st.targets[0]) == CFGP and isinstance(st.value, ast.Call) and (call_name(st.value) or "").endswith("combine_configs")]
+        okm = len(merges) == 1 and len(merges[0].value.args) >= 2 and norm(merges[0].value.args[0]) == "self.config" and norm(merges[0].value.args[1]) == CFGP and norm(kw(merges[0].value, "mode") or ast.Constant(value="update")) == "'update'"
+        okm = okm and kw(cons[0], "config") is not None and norm(kw(cons[0], "config")) == CFGP and ("replace", False) in ncfg.guard_facts(ncfg.node_of(merges[0])) if merges else False
+        chk.check(okm, R, nc, merges[0] if merges else stmt_of(cons[0]), "a derived context is not built from `parent options updated with the given options`: the given options lose against the parent's, and the derived context reads the parent's stored data under the parent's key", site_text="new_context: config = combine_configs(self.config, config, mode='update') unless replace", site={"function": nc.qualname, "rule": "given options win"})
+        child = stmt_of(cons[0]).targets[0].id if isinstance(stmt_of(cons[0]), ast.Assign) and isinstance(stmt_of(cons[0]).targets[0], ast.Name) else None
+        late = [c for c in calls_in(nc.node) if child and isinstance(c.func, ast.Attribute) and norm(c.func.value) == child and c.func.attr in ("set_config",) and any("self.config" in norm(a) for a in list(c.args) + [k.value for k in c.keywords])]
+        chk.check(not late, R, nc, stmt_of(late[0]) if late else None, "the parent's options are applied to the derived context after it was built: they override what was passed to new_context", site_text="new_context: parent's options are not re-applied on top")
+
 
 WITNESSES = [
+    W("combine_configs returns the old dict when nothing is added", "C02.R6", "strax/config.py",
+      "if mode == \"update\":\n        c = old_config.copy()", "if mode == \"update\":\n        if not new_config:\n            return old_config\n        c = old_config.copy()"),
+    W("set_config updates in place", "C02.R6", CONTEXT,
+      "self.config = strax.combine_configs(old_config=self.config, new_config=config, mode=mode)", "self.config.update(config or dict())"),
+    W("parent options re-applied on the derived context", "C02.R6", CONTEXT,
+      "new_c._plugin_class_registry = self._plugin_class_registry.copy()\n", "new_c._plugin_class_registry = self._plugin_class_registry.copy()\n            new_c.set_config(self.config)\n"),
+    W("given options lose against the parent's", "C02.R6", CONTEXT,
+      "config = strax.combine_configs(self.config, config, mode=\"update\")", "config = strax.combine_configs(config, self.config, mode=\"update\")"),
     W("fuzzy_for mapped to the first provided type", "C02.R4", CONTEXT,
       "last_provides.append(self._plugin_class_registry[key].provides[-1])", "last_provides.append(self._plugin_class_registry[key].provides[0])"),
     W("drop version() from the context hash", "C02.R1", CONTEXT,
